@@ -48,7 +48,7 @@ def _loop_over(f, ev, field_or_var):
 
 def r1(ctx):
     prog = ctx.prog
-    f = prog.fn('qb_log_filter_ctl2')
+    f = filter_core(prog)
     store = list(f.calls('_log_filter_store'))
     app = list(f.calls('_log_filter_apply'))
     if len(store) != 1 or not app:
@@ -116,7 +116,7 @@ def r2(ctx):
     dl = prog.fn('qb_log_real_va_')
     alt_delivery = any(ev.callee == '_cs_matches_filter_' for ev in ctx.inl(dl, 2).events('CALL'))
     # which states does filter_ctl2 accept for ADD?
-    ctl = prog.fn('qb_log_filter_ctl2')
+    ctl = filter_core(prog)
     accepted = set()
     # the state expression and the operation parameter as this function spells them (no local names assumed)
     sexprs = {estr(ev.e) for ev in ctl.events('LOAD') if last_field(ev.e) == ('qb_log_target', 'state')}
@@ -169,6 +169,20 @@ def r2(ctx):
         ok2 = bound_ok or alt_enable or alt_delivery
         ctx.check('R2', '%s:replay-covers-all-slots' % fname, ok2, site, 'the replay loop covers every target slot (bound %s)' % bound,
                   'the replay loop stops at %s: filter-holding targets beyond it are skipped' % bound)
+
+
+def filter_core(prog):
+    """the function that stores a filter and applies it to the call-site sections: qb_log_filter_ctl2, or the function it hands its
+    parameters to (a wrapper that brackets the change for the logging thread)"""
+    f = prog.fn('qb_log_filter_ctl2')
+    for _ in range(3):
+        if list(f.calls('_log_filter_store')):
+            return f
+        nxt = [ev.callee for ev in f.events('CALL') if ev.callee and prog.has_fn(ev.callee) and list(prog.fn(ev.callee).calls('_log_filter_store'))]
+        if len(nxt) != 1:
+            break
+        f = prog.fn(nxt[0])
+    return f
 
 
 def r3(ctx):
@@ -402,7 +416,7 @@ def w1(ctx):
 
 def r6(ctx):
     prog = ctx.prog
-    f = prog.fn('qb_log_filter_ctl2')
+    f = filter_core(prog)
     cp = f.params[1]['n']
     REMOVE, TAGCLR = prog.econst('QB_LOG_FILTER_REMOVE'), prog.econst('QB_LOG_TAG_CLEAR')
     apps = list(f.calls('_log_filter_apply'))
@@ -419,7 +433,7 @@ def r6(ctx):
                   'on %s the known call sites are changed by the arguments of the call itself: a call site that another stored filter still selects loses its %s, '
                   'a remove that matches no stored filter still deselects, and a removed regex filter clears nothing' % (what, 'target bit' if val == REMOVE else 'tag'))
     tf = prog.fn('qb_log_target_free')
-    clr = [ev for ev in list(tf.calls('qb_log_filter_ctl')) + list(tf.calls('qb_log_filter_ctl2')) if cval(unwrap(ev.args[1])) == prog.econst('QB_LOG_FILTER_CLEAR_ALL')]
+    clr = [ev for ev in list(tf.calls('qb_log_filter_ctl')) + list(tf.calls('qb_log_filter_ctl2')) + list(tf.calls(filter_core(prog).name)) if cval(unwrap(ev.args[1])) == prog.econst('QB_LOG_FILTER_CLEAR_ALL')]
     ok = bool(clr) and all(cval(unwrap(ev.args[3])) != 0 or unwrap(ev.args[3]).get('k') == 'str' for ev in clr)
     ctx.check('R6', 'target_free-clears-filters', ok, clr[0] if clr else tf,
               'closing a target clears its filters with a text qb_log_filter_ctl2 accepts',
